@@ -46,6 +46,9 @@ class Engine:
     def __init__(self, timeout_ms=60000, max_ticks=None):
         self.solver = z3.Solver()
         self.solver.set("timeout", timeout_ms)
+        self.timeout_ms = timeout_ms
+        self.quick_ms = 2500
+        self.fresh_queries = 0
         self.queries = 0
         self.solver_time = 0.0
         self.paths = 0
@@ -81,6 +84,36 @@ class Engine:
         if r == z3.unknown:
             self.unknowns += 1
         return r
+
+    def decide(self, *extra):
+        """Satisfiability of path condition + extra for the final assertions: the incremental
+        solver first (short time limit), then a fresh solver (full preprocessing / bit-blasting
+        pipeline, which the incremental core does not use).  Returns (result, model|None)."""
+        if not any(has_symbolic_mul(t) for t in extra):
+            self.solver.set("timeout", self.quick_ms)
+            try:
+                r = self.check(*extra)
+            finally:
+                self.solver.set("timeout", self.timeout_ms)
+            if r == z3.sat:
+                return r, self.solver.model()
+            if r == z3.unsat:
+                return r, None
+            self.unknowns -= 1
+        s = z3.Solver()
+        s.set("timeout", self.timeout_ms)
+        s.add(*self.pc)
+        s.add(*extra)
+        t = time.time()
+        self.queries += 1
+        self.fresh_queries += 1
+        r = s.check()
+        self.solver_time += time.time() - t
+        if r == z3.sat:
+            return r, s.model()
+        if r == z3.unknown:
+            self.unknowns += 1
+        return r, None
 
     def add(self, *terms):
         """Assumption / precondition: added to the path condition."""
@@ -208,7 +241,7 @@ class Engine:
         """True iff no 64-bit wrap-around is possible on this path (side conditions of SInt)."""
         if not self.guards:
             return True
-        r = self.check(z3.Not(z3.And(*self.guards)))
+        r, _ = self.decide(z3.Not(z3.And(*self.guards)))
         if r == z3.unsat:
             return True
         if r == z3.sat:
@@ -217,6 +250,25 @@ class Engine:
 
 
 _vars_cache = {}
+
+
+def has_symbolic_mul(term):
+    """True when the term contains a multiplication / division of two non-constant operands
+    (the incremental solver core handles those badly; a fresh solver bit-blasts them)."""
+    stack, seen = [term], set()
+    while stack:
+        t = stack.pop()
+        i = t.get_id()
+        if i in seen:
+            continue
+        seen.add(i)
+        if z3.is_app(t):
+            k = t.decl().kind()
+            if k in (z3.Z3_OP_BMUL, z3.Z3_OP_BSDIV, z3.Z3_OP_BUDIV, z3.Z3_OP_BSREM, z3.Z3_OP_BUREM, z3.Z3_OP_BSMOD):
+                if sum(0 if z3.is_bv_value(c) else 1 for c in t.children()) >= 2:
+                    return True
+            stack.extend(t.children())
+    return False
 
 
 def vars_of(term):
